@@ -34,7 +34,7 @@ tvars == <<vars, ti, xi, conform, exp, found, drifts, okx, hits>>
 Props == {"C01", "C02", "C03", "C04", "C05", "C06", "C08", "C09", "C10", "C11", "C12", "C13", "C16", "C17"}
 
 TInit ==
-  /\ sid = 0 /\ hw = <<>> /\ hr = <<>> /\ th = <<>> /\ kf = <<>> /\ val = <<>> /\ pflag = <<>>
+  /\ sid = 0 /\ hw = <<>> /\ hr = <<>> /\ th = <<>> /\ kf = <<>> /\ val = <<>> /\ pflag = <<>> /\ killed = <<>> /\ nops = 0
   /\ mon = [viol |-> {}] /\ hist = <<>> /\ last = <<>>
   /\ ti = 1 /\ xi = 0 /\ conform = FALSE /\ exp = <<>> /\ found = {} /\ drifts = {} /\ okx = 0
   /\ hits = [p \in Props |-> [ev |-> 0, ex |-> 0, cur |-> FALSE]]
@@ -48,9 +48,11 @@ ResetTo(s) ==
   /\ kf' = [t \in Threads(d) |-> FALSE]
   /\ val' = [l \in 1..d.nl |-> 0]
   /\ pflag' = [c \in 1..d.nc |-> FALSE]
+  /\ killed' = [l \in 1..d.nl |-> FALSE]
+  /\ nops' = 0
   /\ mon' = MonInit(s)
 
-Model == <<sid, hw, hr, th, kf, val, pflag>>
+Model == <<sid, hw, hr, th, kf, val, pflag, killed, nops>>
 
 Drift == /\ conform' = FALSE
          /\ drifts' = drifts \cup {[x |-> xi, ln |-> ti]}
